@@ -506,9 +506,17 @@ func (as *adminScen) serve(br *mbroker, c *simConn, h reqHeader, body interface{
 			q.code = code
 		}
 		for t, ps := range sarama.VerifReassignBlocks(r) {
+			// a verdict that is not request-wide refuses one partition only (the one the fault names, if it was
+			// asked for) and accepts the others: the operation as a whole is still refused
+			only := int32(-1)
+			if q.code != 0 && res.ErrorCode == 0 && fault != nil && !fault.AllParts {
+				if _, asked := ps[fault.Partition]; asked && len(ps) > 1 {
+					only = fault.Partition
+				}
+			}
 			for p := range ps {
 				pc := int16(0)
-				if q.code != 0 && res.ErrorCode == 0 {
+				if q.code != 0 && res.ErrorCode == 0 && (only < 0 || p == only) {
 					pc = q.code
 				}
 				if !missing {
